@@ -133,8 +133,15 @@ def sym_eigh(x):
 
 def sym_solve(A, b):
     cx = _cx(A) or _cx(b)
+    c = zt.ctl()
+    # the same system solved twice on one path has the same solution (LAPACK is a function of its input)
+    k = ("solve", _key(A), _key(b))
+    hit = c.memo.get(k)
+    if hit is not None:
+        return hit[0]
     y = _fresh(b.shape, "y", cx)
     _assume_mat_eq(A.dot(y), b, "solve contract: A y = b")
+    c.memo[k] = (y, A, b)
     return y
 
 
